@@ -1118,3 +1118,26 @@ M('M-remote-input-window-check', ['C04', 'C03'], ['C04.M', 'C03.M'], SL,
 M('W-mixing-delay-capped', ['C13', 'C16'], ['C13.W', 'C16.W'], SYNCT,
   """            sync_layer.set_frame_delay(i, input_delay);""",
   """            sync_layer.set_frame_delay(i, input_delay.min(max_prediction));""", 'the configured input delay silently capped at the prediction window')
+
+# ---------------------------------------------------------------- timers
+M('T-keepalive-uses-recv-time', ['C12', 'C05'], ['C12.T', 'C05.T'], PROTO,
+  """                if self.last_send_time + KEEP_ALIVE_INTERVAL < now {""",
+  """                if self.last_recv_time + KEEP_ALIVE_INTERVAL < now {""", 'keep-alive timer reads the receive timestamp: a peer that only sends goes silent towards us')
+M('T-quality-report-not-rearmed', ['C12', 'C05'], ['C12.T', 'C05.T'], PROTO,
+  """        self.running_last_quality_report = Instant::now();""",
+  """        if self.local_frame_advantage != 0 {
+            self.running_last_quality_report = Instant::now();
+        }""", 'the quality-report timer is re-armed only when the advantage is non-zero: otherwise a report goes out on every poll')
+M('T-resend-timer-armed-from-send-time', ['C05', 'C12'], ['C05.T', 'C12.T'], PROTO,
+  """                    self.send_pending_output(connect_status);
+                    self.running_last_input_recv = Instant::now();""",
+  """                    self.send_pending_output(connect_status);
+                    self.running_last_input_recv = self.last_send_time;""", 'resend timer armed from another timer\'s timestamp')
+N('timer-guard-now-minus-field', ['C05', 'C12', 'C07'], PROTO,
+  """                if self.last_send_time + KEEP_ALIVE_INTERVAL < now {""",
+  """                if now > self.last_send_time + KEEP_ALIVE_INTERVAL {""", 'a < b written as b > a')
+N('timer-rearm-with-sampled-now', ['C05', 'C12'], PROTO,
+  """                    self.send_pending_output(connect_status);
+                    self.running_last_input_recv = Instant::now();""",
+  """                    self.send_pending_output(connect_status);
+                    self.running_last_input_recv = now;""", 're-arm with the reading taken at the top of poll')
